@@ -1,4 +1,5 @@
 import Driver.Proto
+import XgcmModel.Model.MetricOps
 import XgcmModel.Model.Metrics
 namespace Xgcm.Driver
 open Xgcm Xgcm.Proto
@@ -54,5 +55,30 @@ def c10 : P String := do
     | .ok sel => String.intercalate "*" (sel.map (fun f => f.1.name ++ (if f.2 then "~" else "")))
     | .error e => s!"err:{e}")
   pure (String.intercalate " # " outs)
+
+/-- an optional value: `N` = missing (NaN) -/
+def optRatN : P (Option Rat) := do
+  let t ← tok
+  if t == "N" then pure none else
+  match parseRat t with | some r => pure (some r) | none => throw s!"bad rat {t}"
+
+/-- `c10arith integrate <points: n (cells: k (x w)*)>` / `c10arith average <points: n (cells: k (x|N w)*)>` /
+    `c10arith derivative <n diffs> <n metric>` → exact values, `div0` where the divisor is zero -/
+def c10arith : P String := do
+  let what ← tok
+  match what with
+  | "integrate" =>
+    let pts ← counted (counted (do let x ← rat; let w ← rat; pure (x, w)))
+    pure (String.intercalate " " (pts.map (fun cells => fmtRat (integrateCells cells))))
+  | "average" =>
+    let pts ← counted (counted (do let x ← optRatN; let w ← rat; pure (x, w)))
+    pure (String.intercalate " " (pts.map (fun cells =>
+      if ((validCells cells).map (·.2)).sum = 0 then "div0" else fmtRat (averageCells cells))))
+  | "derivative" =>
+    let d ← counted rat
+    let m ← counted rat
+    if m.any (· = 0) then pure "div0" else
+    pure (String.intercalate " " ((derivativeLine d m).map fmtRat))
+  | _ => throw s!"bad c10arith {what}"
 
 end Xgcm.Driver
